@@ -129,6 +129,8 @@ type Env struct {
 	metaMounted bool
 	metaFull    bool
 
+	ForceTable int // 0 = PRNG-chosen table; 1..3 = application writes go to t0..t2
+
 	nextOut int
 	extraN  int
 	nextID  [3]int64
@@ -299,6 +301,9 @@ func (e *Env) AppWriteKind(kind string) (bool, error) {
 		return false, nil
 	}
 	ti := e.Rng.Intn(3)
+	if e.ForceTable > 0 {
+		ti = e.ForceTable - 1 // directed histories: 1..3 = t0..t2 (the PRNG draw above is still consumed)
+	}
 	tbl := fmt.Sprintf("t%d", ti)
 	var ex error
 	switch kind {
